@@ -143,13 +143,22 @@ func c19Cobra(w *c19.World, c c19.Case, dry bool) (out c19.CobraOut, infra error
 				out.Panic = fmt.Sprint(p)
 			}
 		}()
-		cmd, _ := NewRootCmd()
+		cmd, opts := NewRootCmd()
 		cmd.SetArgs(args)
 		cmd.SetOut(io.Discard)
 		cmd.SetErr(io.Discard)
 		ctx, cancel := context.WithTimeout(context.Background(), 170*time.Second)
 		defer cancel()
 		out.CmdErr = cmd.ExecuteContext(ctx)
+		// white box: the command returned, no script is running any more, so the
+		// throttle loadConf built must have every slot free
+		if opts.throttle != nil && opts.conf != nil {
+			out.ThrottleMax = opts.conf.Defaults.Parallel
+			if out.ThrottleMax <= 0 {
+				out.ThrottleMax = 1
+			}
+			out.ThrottleFree = c19.Drain(opts.throttle, out.ThrottleMax)
+		}
 	}()
 	os.Stderr = saved
 	lf.Close()
